@@ -9,6 +9,7 @@
 (*   runtime/sam/op/spill/peeker.go (one head value per run)               *)
 (*                                                                         *)
 (* A behaviour is fixed by its initial state: a sequence of n <= MaxN      *)
+(* (or one of the larger inputs listed in InputFile)                       *)
 (* values, value i (its arrival index is its identity) carrying the key    *)
 (* class keys[i] \in 1..K of an abstract total preorder 1 < 2 < .. < K,    *)
 (* cut into <= MaxB non-empty batches (sizes), and a memory limit counted  *)
@@ -18,7 +19,7 @@
 (* TLC checks for ALL such inputs and limits that the output is the stable *)
 (* sort (Ref), that runs are stably sorted, that no value is lost or       *)
 (* duplicated, and prints every finished behaviour                         *)
-(*    <<"CASE", keys, sizes, limit, runs, output>>                         *)
+(*    <<keys, sizes, limit, runs, output>>  (as a string)                  *)
 (* which the harness replays on the real operator: same number and sizes   *)
 (* of spilled runs (reported by the spill.MergeSort.Spill hook), same      *)
 (* output order.                                                           *)
@@ -28,14 +29,15 @@
 (* SortSpill.mut.cfg to show that the Final invariant is not vacuous (TLC  *)
 (* must report a violation there).                                         *)
 (***************************************************************************)
-EXTENDS Integers, Sequences, FiniteSets, SequencesExt, TLC
+EXTENDS Integers, Sequences, FiniteSets, SequencesExt, TLC, Json
 
 CONSTANTS MaxN,      \* max number of input values
           MaxB,      \* max number of input batches
           K,         \* number of key classes
           Limits,    \* memory limits (in values); a limit > MaxN never spills
           TieBreak,  \* "ordinal" | "none"
-          Export     \* TRUE: print finished behaviours
+          Export,    \* TRUE: print finished behaviours
+          InputFile  \* JSON array of [keys, sizes, limit]: further (larger, sampled) inputs
 
 VARIABLES keys,      \* [1..n -> 1..K]   (constant along a behaviour)
           sizes,     \* batch sizes      (constant along a behaviour)
@@ -66,10 +68,14 @@ StableSort(s) == FoldLeft(Ins, <<>>, s)
 \* ---- reference: ids ordered by (key, arrival index)
 Ref == SetToSortSeq(1..n, LAMBDA x, y : keys[x] < keys[y] \/ (keys[x] = keys[y] /\ x < y))
 
+\* larger inputs chosen (seeded) by the harness; the spec predicts them too
+Extra == ToSet(JsonDeserialize(InputFile))
+
 Init ==
-  /\ \E m \in 0..MaxN : keys \in [1..m -> 1..K]
-  /\ sizes \in Comps(Len(keys))
-  /\ limit \in Limits
+  /\ \/ /\ \E m \in 0..MaxN : keys \in [1..m -> 1..K]
+        /\ sizes \in Comps(Len(keys))
+        /\ limit \in Limits
+     \/ \E x \in Extra : keys = x.keys /\ sizes = x.sizes /\ limit = x.limit
   /\ nb = 0 /\ buf = <<>> /\ nbytes = 0 /\ runs = <<>> /\ pos = <<>> /\ output = <<>>
   /\ pc = "pull"
 
@@ -96,7 +102,7 @@ FinishMem ==
   /\ pc = "pull" /\ nb = Len(sizes) /\ runs = <<>>
   /\ output' = StableSort(buf)
   /\ buf' = <<>> /\ nbytes' = 0 /\ pc' = "done"
-  /\ (Export => PrintT(<<"CASE", keys, sizes, limit, runs, output'>>))
+  /\ (Export => PrintT(ToString(<<keys, sizes, limit, runs, output'>>)))
   /\ UNCHANGED <<keys, sizes, limit, nb, runs, pos>>
 
 \* batch == nil, spiller != nil: spill the remainder (if any), then sendSpills
@@ -125,7 +131,7 @@ MergeStep ==
 MergeDone ==
   /\ pc = "merge" /\ Live = {}
   /\ pc' = "done"
-  /\ (Export => PrintT(<<"CASE", keys, sizes, limit, runs, output>>))
+  /\ (Export => PrintT(ToString(<<keys, sizes, limit, runs, output>>)))
   /\ UNCHANGED <<keys, sizes, limit, nb, buf, nbytes, runs, pos, output>>
 
 Next == Consume \/ Spill \/ FinishMem \/ StartMerge \/ MergeStep \/ MergeDone
